@@ -497,6 +497,8 @@ class StmtMixin:
                 enter = st2.copy().assume(t)
                 leave = st2.assume(z3.Not(t))
                 if self.feasible(enter):
+                    enter.env['$entry'] = V(TPy('entry'), dict(enter.env))
+                    head_len = len(enter.pc)
                     if pre_body is not None:
                         pre_body(enter)
                     for o in self.exec_block(s.body, enter):
@@ -506,6 +508,15 @@ class StmtMixin:
                                 step(e)
                             for hnt in spec.hints:
                                 e.assume(self.instantiate(hnt, e))
+                            proved = []
+                            for k, a in enumerate(spec.asserts):
+                                g = self.ev_spec(a, e, old=st.old)
+                                self.oblige('loop-assert', e, g, s.lineno, a, tag=f'{tag}.{k}')
+                                e = e.copy().assume(g)
+                                proved.append(g)
+                            if spec.focus and proved:
+                                e = e.copy()
+                                e.pc = e.pc[:head_len] + proved
                             for k, inv in enumerate(spec.invariant):
                                 g = self.ev_spec(inv, e, old=st.old)
                                 self.oblige('inv-preserve', e, g, s.lineno, inv, tag=f'{tag}.{k}')
